@@ -937,8 +937,9 @@ def _sum_fact(name):
         finally:
             eng.spec_mode = saved
         label = kwargs.get('label', name)
-        if eng.lemma_mode:
-            eng.oblige('lemma', label + '-premise', st, prem)
+        if eng.lemma_mode or eng.ghost_mode:
+            eng.spec_mode = False
+            eng.oblige('lemma' if eng.lemma_mode else 'ghost', label + '-premise', st, prem)
             st.assume(concl)
         elif eng.clauses is not None:
             eng.clauses.append({'kind': 'hint', 'premise': prem, 'conclusion': concl, 'label': label, 'line': getattr(eng.cur_stmt, 'lineno', None)})
@@ -1019,6 +1020,7 @@ SPEC = {
     'raises': spec_raises,
     'inline': spec_declare('inline'),
     'invariant': spec_declare('invariant'),
+    'ghost': spec_declare('ghost'),
     'decreases': spec_declare('decreases'),
     'assigns': spec_declare('assigns'),
     'old': spec_old,
